@@ -572,10 +572,10 @@ func (h *harness) unionMember(rs []sql.MySQLRange, pt []int64) int {
 func (h *harness) cmpCase(a, b sql.MySQLRangeCut) {
 	var c int
 	var err error
-	p := hx.Safe(func() { c, err = a.Compare(h.ctx, b, typ) })
+	p := guard("cmp", func() { c, err = a.Compare(h.ctx, b, typ) })
 	obs := strconv.Itoa(c)
 	if p != "" {
-		obs = "crash"
+		obs = p
 	} else if err != nil {
 		obs = "err"
 	}
@@ -593,13 +593,15 @@ func (h *harness) cmpCase(a, b sql.MySQLRangeCut) {
 }
 
 func (h *harness) colCases(r, o sql.MySQLRangeColumnExpr) {
+	if skip("ce") {
+		return
+	}
 	ctx := h.ctx
 	nt := colStr(r) != colStr(o)
 	emit := func(op string, f func() string) string {
 		var obs string
-		p := hx.Safe(func() { obs = f() })
-		if p != "" {
-			obs = "crash"
+		if g := guard("ce", func() { obs = f() }); g != "" {
+			obs = g
 		}
 		h.out.Stat("ce:" + op)
 		return h.out.Case(hx.List("ce", op, colStr(r), colStr(o)), obs, nt)
@@ -706,12 +708,15 @@ func (h *harness) colCases(r, o sql.MySQLRangeColumnExpr) {
 }
 
 func (h *harness) simplifyCase(cs []sql.MySQLRangeColumnExpr) {
+	if skip("simplify") {
+		return
+	}
 	var res []sql.MySQLRangeColumnExpr
 	var err error
-	p := hx.Safe(func() { res, err = sql.SimplifyRangeColumn(h.ctx, cs...) })
+	p := guard("simplify", func() { res, err = sql.SimplifyRangeColumn(h.ctx, cs...) })
 	obs := colsStr(res)
 	if p != "" {
-		obs = "crash"
+		obs = p
 	} else if err != nil {
 		obs = "err"
 	}
@@ -746,14 +751,16 @@ func (h *harness) simplifyCase(cs []sql.MySQLRangeColumnExpr) {
 }
 
 func (h *harness) rangePairCases(a, b sql.MySQLRange) {
+	if skip("rg") {
+		return
+	}
 	ctx := h.ctx
 	nt := rangeStr(a) != rangeStr(b)
 	n := len(a)
 	emit := func(op string, f func() string) string {
 		var obs string
-		p := hx.Safe(func() { obs = f() })
-		if p != "" {
-			obs = "crash"
+		if g := guard("rg", func() { obs = f() }); g != "" {
+			obs = g
 		}
 		h.out.Stat("rg:" + op)
 		return h.out.Case(hx.List("rg", op, rangeStr(a), rangeStr(b)), obs, nt)
@@ -838,11 +845,14 @@ func (h *harness) rangePairCases(a, b sql.MySQLRange) {
 }
 
 func (h *harness) intersectRangesCase(rs []sql.MySQLRange) {
+	if skip("intersectranges") {
+		return
+	}
 	var res sql.MySQLRange
-	p := hx.Safe(func() { res = sql.IntersectRanges(h.ctx, rs...) })
+	p := guard("intersectranges", func() { res = sql.IntersectRanges(h.ctx, rs...) })
 	obs := rangeStr(res)
 	if p != "" {
-		obs = "crash"
+		obs = p
 	}
 	nonNil := 0
 	for _, r := range rs {
@@ -883,12 +893,15 @@ func (h *harness) intersectRangesCase(rs []sql.MySQLRange) {
 }
 
 func (h *harness) sortCase(rs []sql.MySQLRange) {
+	if skip("sort") {
+		return
+	}
 	var res []sql.MySQLRange
 	var err error
-	p := hx.Safe(func() { res, err = sql.SortRanges(h.ctx, rs...) })
+	p := guard("sort", func() { res, err = sql.SortRanges(h.ctx, rs...) })
 	obs := rangesStr(res)
 	if p != "" {
-		obs = "crash"
+		obs = p
 	} else if err != nil {
 		obs = "err"
 	}
@@ -935,27 +948,51 @@ func (h *harness) sortCase(rs []sql.MySQLRange) {
 }
 
 func (h *harness) validateCase(rs []sql.MySQLRange) {
+	if skip("validate") {
+		return
+	}
 	var err error
-	p := hx.Safe(func() { err = sql.VerifValidateRangeCollection(h.ctx, rs) })
+	p := guard("validate", func() { err = sql.VerifValidateRangeCollection(h.ctx, rs) })
 	obs := boolStr(err == nil)
 	if p != "" {
-		obs = "crash"
+		obs = p
 	}
 	h.out.Case(hx.List("validate", rangesStr(rs)), obs, len(rs) > 1)
 	h.out.Stat("validate")
 }
 
-// withTimeout runs f in a goroutine (RemoveOverlappingRanges is a worklist whose termination is not obvious).
+// withTimeout runs f in a goroutine (RemoveOverlappingRanges is a worklist whose termination is not obvious;
+// under a broken Compare any of the loops may spin).
 func withTimeout(f func()) (panicMsg string, timedOut bool) {
 	done := make(chan string, 1)
 	go func() { done <- hx.Safe(f) }()
+	timer := time.NewTimer(3 * time.Second)
+	defer timer.Stop()
 	select {
 	case p := <-done:
 		return p, false
-	case <-time.After(10 * time.Second):
+	case <-timer.C:
 		return "", true
 	}
 }
+
+// hung counts the calls that did not return, per operation family; after two of them the family is
+// skipped for the rest of the run (the leaked goroutines keep spinning, the run must still end in time).
+var hung = map[string]int{}
+
+func guard(family string, f func()) string {
+	p, to := withTimeout(f)
+	if to {
+		hung[family]++
+		return "timeout"
+	}
+	if p != "" {
+		return "crash"
+	}
+	return ""
+}
+
+func skip(family string) bool { return hung[family] >= 2 }
 
 func rorObs(res sql.MySQLRangeCollection, err error, p string, timedOut bool) string {
 	switch {
@@ -1000,9 +1037,16 @@ func (h *harness) checkCollection(id, what string, in []sql.MySQLRange, memberIn
 func (h *harness) rorCase(rs []sql.MySQLRange) {
 	var res sql.MySQLRangeCollection
 	var err error
+	if skip("ror") {
+		return
+	}
 	in := make([]sql.MySQLRange, len(rs))
 	copy(in, rs)
-	p, to := withTimeout(func() { res, err = sql.RemoveOverlappingRanges(h.ctx, in...) })
+	g := guard("ror", func() { res, err = sql.RemoveOverlappingRanges(h.ctx, in...) })
+	p, to := "", g == "timeout"
+	if g == "crash" {
+		p = g
+	}
 	obs := rorObs(res, err, p, to)
 	wf := isWF(rs)
 	id := h.out.Case(hx.List("ror", rangesStr(rs)), obs, len(rs) > 1 && len(res) != len(rs))
@@ -1022,7 +1066,14 @@ func (h *harness) rorCase(rs []sql.MySQLRange) {
 func (h *harness) collIntCase(xs, ys []sql.MySQLRange) {
 	var res sql.MySQLRangeCollection
 	var err error
-	p, to := withTimeout(func() { res, err = sql.MySQLRangeCollection(xs).Intersect(h.ctx, sql.MySQLRangeCollection(ys)) })
+	if skip("ror") {
+		return
+	}
+	g := guard("ror", func() { res, err = sql.MySQLRangeCollection(xs).Intersect(h.ctx, sql.MySQLRangeCollection(ys)) })
+	p, to := "", g == "timeout"
+	if g == "crash" {
+		p = g
+	}
 	obs := rorObs(res, err, p, to)
 	id := h.out.Case(hx.List("collint", rangesStr(xs), rangesStr(ys)), obs, len(res) > 0)
 	h.out.Stat("collint")
@@ -1043,6 +1094,9 @@ func (h *harness) collIntCase(xs, ys []sql.MySQLRange) {
 // every mutation and the exact result of every lookup. Oracle: the stored ranges are the set the
 // operations describe; lookups return only stored ranges connected to the probe.
 func (h *harness) treeCase(g *gen, n, nops int) {
+	if skip("tree") {
+		return
+	}
 	ctx := h.ctx
 	first := g.rng(n, true)
 	tys := make([]sql.Type, n)
@@ -1053,7 +1107,7 @@ func (h *harness) treeCase(g *gen, n, nops int) {
 	var fails []string
 	var tree *sql.MySQLRangeColumnExprTree
 	set := map[string]sql.MySQLRange{}
-	p := hx.Safe(func() {
+	p := guard("tree", func() {
 		t, err := sql.NewMySQLRangeColumnExprTree(first, tys)
 		if err != nil {
 			panic(err)
@@ -1095,7 +1149,7 @@ func (h *harness) treeCase(g *gen, n, nops int) {
 			}
 			op = hx.List("ins", rangeStr(rg))
 			if !dead {
-				p = hx.Safe(func() {
+				p = guard("tree", func() {
 					if err := tree.Insert(ctx, rg); err != nil {
 						panic(err)
 					}
@@ -1109,7 +1163,7 @@ func (h *harness) treeCase(g *gen, n, nops int) {
 			}
 			op = hx.List("rem", rangeStr(rg))
 			if !dead {
-				p = hx.Safe(func() {
+				p = guard("tree", func() {
 					if err := tree.Remove(ctx, rg); err != nil {
 						panic(err)
 					}
@@ -1120,7 +1174,7 @@ func (h *harness) treeCase(g *gen, n, nops int) {
 			op = hx.List("find", rangeStr(rg))
 			if !dead {
 				var got sql.MySQLRangeCollection
-				p = hx.Safe(func() {
+				p = guard("tree", func() {
 					r, err := tree.FindConnections(ctx, rg, 0)
 					if err != nil {
 						panic(err)
@@ -1167,7 +1221,7 @@ func (h *harness) treeCase(g *gen, n, nops int) {
 			if !dead {
 				var got sql.MySQLRangeCollection
 				var err error
-				p = hx.Safe(func() { got, err = tree.GetRangeCollection(ctx) })
+				p = guard("tree", func() { got, err = tree.GetRangeCollection(ctx) })
 				if p == "" {
 					if err != nil {
 						ob = "err:merge"
@@ -1244,10 +1298,10 @@ func run(a hx.RunArgs) error {
 	cols := g.allCols()
 	for _, c := range cols {
 		var e bool
-		p := hx.Safe(func() { e, _ = c.IsEmpty(h.ctx) })
+		p := guard("ce1", func() { e, _ = c.IsEmpty(h.ctx) })
 		obs := boolStr(e)
 		if p != "" {
-			obs = "crash"
+			obs = p
 		}
 		id := out.Case(hx.List("ce1", "isempty", colStr(c)), obs, true)
 		out.Stat("ce1:isempty")
